@@ -1,7 +1,9 @@
 """C08 — contracts are checked at the documented points; failures raise the right error.
 
 Every state and every transition of every skeleton chart (scheme S) carries 2 preconditions,
-2 postconditions and 2 invariants, each a logging probe C(cid, __old__.v, v).  For every
+2 postconditions and 2 invariants, each a logging probe C(cid, __old__.v, v); the counter v is kept three
+times in the context (rebound int, list grown in place, attribute of a plain object) and __old__ must
+show all three as they were.  For every
 (state, op) of the complete BFS: the clean run's combined log of code fragments and condition
 evaluations must be exactly the documented sequence; then, for EVERY j, the run is repeated with
 the j-th condition evaluation returning False (exhaustive single-fault injection): the right
@@ -27,21 +29,41 @@ ERR = {'pre': 'PreconditionError', 'post': 'PostconditionError', 'inv': 'Invaria
 def cond(owner, kind, i):
     cid = '%s:%s%d' % (owner, kind, i)
     if kind == 'pre':
-        return "C(%r, None, v)" % cid
-    return "C(%r, __old__.v, v)" % cid
+        return "C(%r, None, NOWV(v, l, o))" % cid
+    return "C(%r, OLDV(__old__), NOWV(v, l, o))" % cid
+
+
+class Box:
+    """a plain (hashable, mutable) user object kept in the context"""
+
+    def __init__(self):
+        self.n = 0
+
+
+def NOWV(v, l, o):
+    # the counter lives three times in the context: rebound int, list grown in place, attribute of an object
+    return v if v == len(l) == o.n else ('inconsistent', v, len(l), o.n)
+
+
+def OLDV(old):
+    return old.v if old.v == len(old.l) == old.o.n else ('__old__ is torn', old.v, len(old.l), old.o.n)
+
+
+EXTRA = {'BOX': Box, 'NOWV': NOWV, 'OLDV': OLDV}
+BUMP = "v = v + 1; l.append(v); o.n = o.n + 1"
 
 
 def make_spec(task):
     tree, scheme, ivar, k = task
     spec = add_scheme_S(flatten(tree, scheme, ivar))
-    spec['preamble'] = 'v = 0'
+    spec['preamble'] = 'v = 0; l = []; o = BOX()'
     for s in spec['states']:
-        s['on_entry'] = "P('en', %r); v = v + 1" % s['name']
-        s['on_exit'] = "P('ex', %r); v = v + 1" % s['name']
+        s['on_entry'] = "P('en', %r); " % s['name'] + BUMP
+        s['on_exit'] = "P('ex', %r); " % s['name'] + BUMP
         for kind, _ in KINDS:
             s[kind] = [cond('s/' + s['name'], kind, i) for i in range(2)]
     for t in spec['transitions']:
-        t['action'] = "P('ac', %d); v = v + 1" % t['tid']
+        t['action'] = "P('ac', %d); " % t['tid'] + BUMP
         for kind, _ in KINDS:
             t[kind] = [cond('t/%d' % t['tid'], kind, i) for i in range(2)]
     return spec
@@ -129,7 +151,7 @@ def run_op(R, hist, op, fail_at):
 
 def work(task):
     spec = make_spec(task)
-    R0 = engine.Runner(spec)
+    R0 = engine.Runner(spec, extra_context=EXTRA)
     tr_by_tid = {t['tid']: t for t in spec['transitions']}
     found = []
     extra = collections.Counter()
@@ -248,7 +270,7 @@ def run(tier, seed):
 def replay(data):
     task = schemes._tupled(data['task'])
     spec = make_spec(task)
-    R = engine.Runner(spec)
+    R = engine.Runner(spec, extra_context=EXTRA)
     hist = schemes._tupled(data['hist']) if data['hist'] else ()
     op = schemes._tupled(data['op'])
     print('chart :', describe(spec))
